@@ -139,7 +139,18 @@ def impl_done(inp):
         tm = {}
         for e in comp[2]:
             tm[e[0]] = e[2] if e[1] == 0 else set(e[2:])
-        d = D.TargetEncodingInactiveDone(target_mapping=tm, sim_ends_if_one_done=bool(comp[1]), **kw)
+        want = bool(comp[1])
+        if len(comp[2]) % 2:
+            # the option reaches its value through the public setter after construction
+            # (None = "the default", which is True): the rule must follow the attribute
+            d = D.TargetEncodingInactiveDone(target_mapping=tm, sim_ends_if_one_done=not want, **kw)
+            if want:
+                d.sim_ends_if_one_done = None
+            else:
+                d.sim_ends_if_one_done = True
+                d.sim_ends_if_one_done = False
+        else:
+            d = D.TargetEncodingInactiveDone(target_mapping=tm, sim_ends_if_one_done=want, **kw)
     elif kind == 4:
         d = D.OneTeamRemainingDone(**kw)
     else:
